@@ -63,15 +63,50 @@ def subset_rebuilds(src, cls):
     return fn, False
 
 
-def run(repo, out_dir):
-    st = Src(repo, REL_T)
-    sm = Src(repo, REL_M)
-    lines, info = [], {}
-    # create_mixture_model
-    fns = [x for x in sm.tree.body if isinstance(x, ast.FunctionDef) and x.name == 'create_mixture_model']
-    if len(fns) != 1 or [a.arg for a in fns[0].args.args] != ['chemicals', 'var', 'Model']:
-        raise TranslatorError(f'{REL_M}: create_mixture_model(chemicals, var, Model) not found')
-    fn = fns[0]
+LIVE_CALL = ("[Assign(targets=[Name(id='var', ctx=Store())], value=Attribute(value=Name(id='self', ctx=Load()), attr='var', ctx=Load())), "
+             "Assign(targets=[Name(id='obj', ctx=Store())], value=Call(func=Name(id='getattr', ctx=Load()), args=[Attribute(value=Name(id='self', ctx=Load()), attr='chemical', ctx=Load()), Name(id='var', ctx=Load())], keywords=[])), "
+             "If(test=Call(func=Name(id='isinstance', ctx=Load()), args=[Name(id='obj', ctx=Load()), Name(id='PhaseHandle', ctx=Load())], keywords=[]), "
+             "body=[Return(value=Call(func=Name(id='obj', ctx=Load()), args=[Name(id='phase', ctx=Load()), Name(id='T', ctx=Load()), Name(id='P', ctx=Load())], keywords=[]))], "
+             "orelse=[If(test=Compare(left=Name(id='var', ctx=Load()), ops=[Eq()], comparators=[Constant(value='Cn')]), "
+             "body=[Return(value=Call(func=Name(id='obj', ctx=Load()), args=[Name(id='T', ctx=Load())], keywords=[]))], "
+             "orelse=[Return(value=Call(func=Name(id='obj', ctx=Load()), args=[Name(id='T', ctx=Load()), Name(id='P', ctx=Load())], keywords=[]))])])]")
+
+
+def translate_create(sm, fn):
+    """create_mixture_model: one model per chemical in the order of `chemicals`, either CAPTURED when the mixture is built
+    (the chemical's handle object itself / a Mock handle around it) -> False, or LIVE (a handle holding (chemical, var) whose
+    __call__ fetches getattr(chemical, var) and dispatches like PhaseHandle / MockPhaseTHandle / MockPhaseTPHandle) -> True"""
+    body = strip_docstring(sm, fn.body)
+    # live form: return Model([<Handle>(chemical, var) for chemical in chemicals], var)
+    if len(body) == 1 and isinstance(body[0], ast.Return):
+        r = body[0].value
+        ok = (isinstance(r, ast.Call) and isinstance(r.func, ast.Name) and r.func.id == 'Model' and len(r.args) == 2 and not r.keywords
+              and isinstance(r.args[1], ast.Name) and r.args[1].id == 'var' and isinstance(r.args[0], ast.ListComp)
+              and len(r.args[0].generators) == 1 and not r.args[0].generators[0].ifs
+              and ast.dump(r.args[0].generators[0].iter) == "Name(id='chemicals', ctx=Load())"
+              and isinstance(r.args[0].generators[0].target, ast.Name))
+        if ok:
+            v = r.args[0].generators[0].target.id
+            e = r.args[0].elt
+            ok = (isinstance(e, ast.Call) and isinstance(e.func, ast.Name) and not e.keywords
+                  and [ast.dump(a) for a in e.args] == [f"Name(id='{v}', ctx=Load())", "Name(id='var', ctx=Load())"])
+        if not ok:
+            sm.err(fn, 'create_mixture_model is outside the subset')
+        cls = [x for x in sm.tree.body if isinstance(x, ast.ClassDef) and x.name == e.func.id]
+        if len(cls) != 1:
+            sm.err(fn, f'handle class {e.func.id} not found')
+        init = [x for x in cls[0].body if isinstance(x, ast.FunctionDef) and x.name == '__init__']
+        call = [x for x in cls[0].body if isinstance(x, ast.FunctionDef) and x.name == '__call__']
+        if len(init) != 1 or len(call) != 1 or [a.arg for a in init[0].args.args] != ['self', 'chemical', 'var'] \
+                or [sm.seg(x).replace(' ', '') for x in init[0].body] != ['self.chemical=chemical', 'self.var=var']:
+            sm.err(cls[0], 'handle class must store (chemical, var)')
+        a = call[0].args
+        if [x.arg for x in a.args] != ['self', 'phase', 'T', 'P'] or len(a.defaults) != 1 or not (isinstance(a.defaults[0], ast.Constant) and a.defaults[0].value is None):
+            sm.err(call[0], 'handle __call__ must be (self, phase, T, P=None)')
+        got = '[' + ', '.join(ast.dump(x) for x in strip_docstring(sm, call[0].body)) + ']'
+        if got != LIVE_CALL:
+            sm.err(call[0], 'handle __call__ is not the dispatch obj = getattr(self.chemical, var); PhaseHandle -> obj(phase, T, P); Cn -> obj(T); else obj(T, P)')
+        return True
     loops = [x for x in fn.body if isinstance(x, ast.For)]
     ok = (len(loops) == 1 and isinstance(loops[0].target, ast.Name) and isinstance(loops[0].iter, ast.Name)
           and loops[0].iter.id == 'chemicals' and not loops[0].orelse)
@@ -89,6 +124,19 @@ def run(repo, out_dir):
             "Call(func=Name(id='Model', ctx=Load()), args=[Name(id='handles', ctx=Load()), Name(id='var', ctx=Load())], keywords=[])"
     if not ok:
         sm.err(fn, 'create_mixture_model is outside the subset (one handle per chemical, appended in the order of `chemicals`)')
+    return False
+
+
+def run(repo, out_dir):
+    st = Src(repo, REL_T)
+    sm = Src(repo, REL_M)
+    lines, info = [], {}
+    # create_mixture_model
+    fns = [x for x in sm.tree.body if isinstance(x, ast.FunctionDef) and x.name == 'create_mixture_model']
+    if len(fns) != 1 or [a.arg for a in fns[0].args.args] != ['chemicals', 'var', 'Model']:
+        raise TranslatorError(f'{REL_M}: create_mixture_model(chemicals, var, Model) not found')
+    fn = fns[0]
+    live = translate_create(sm, fn)
     # IdealMixture.from_chemicals
     fc = find_method(sm, 'IdealMixture', 'from_chemicals')
     found = {}
@@ -109,8 +157,10 @@ def run(repo, out_dir):
         if seg != 'chemicals.tuple' and not seg.startswith('[(i if isa(i, Chemical)'):
             sm.err(x, 'IdealMixture.from_chemicals re-orders or filters `chemicals`')
     lines.append(f'(* {REL_M}:{fn.lineno} create_mixture_model and :{fc.lineno} IdealMixture.from_chemicals: one model per chemical, in order *)\n'
-                 'Definition mixture_models_of (chemicals : list nat) : list nat := chemicals.')
-    info['from_chemicals'] = 'models in the order of chemicals'
+                 'Definition mixture_models_of (chemicals : list nat) : list nat := chemicals.\n'
+                 '(* do the models fetch the chemical\'s CURRENT handle when called (true), or keep the object found when the mixture was built? *)\n'
+                 f'Definition mixture_models_live : bool := {"true" if live else "false"}.')
+    info['from_chemicals'] = 'models in the order of chemicals; ' + ('live look-up' if live else 'handle objects captured at build time')
     # __init__
     for cls in ('Thermo', 'IdealThermo'):
         fn = find_method(st, cls, '__init__')
